@@ -92,16 +92,17 @@ theorem firstWrongResult_of_all {rs : List (Nat × FileResult)} {tags : List Fil
 
 /-- what a positive answer of the checker means -/
 structure TraceOk (c : DCfg) (labels : List DLabel) (observed : List CEv) (tags : List FileResult)
-    (s : DSt) : Prop where
+    (exitZero : Bool) (s : DSt) : Prop where
   run : drun c (dinit c) labels = some s
   finished : s.phase = .finished
   log : stripCancel s.log = stripCancel observed
   ntags : tags.length = c.files.length
   results : ∀ i, i < c.files.length → resultOf s.results i = tags[i]?
+  exit : dexitOk s = exitZero
 
 theorem traceCheck_ok {c : DCfg} {labels : List DLabel} {observed : List CEv}
-    {tags : List FileResult} (h : traceCheck c labels observed tags = .ok) :
-    ∃ s, TraceOk c labels observed tags s := by
+    {tags : List FileResult} {exitZero : Bool} (h : traceCheck c labels observed tags exitZero = .ok) :
+    ∃ s, TraceOk c labels observed tags exitZero s := by
   unfold traceCheck at h
   cases hr : drunAt c (dinit c) labels 0 with
   | error k => rw [hr] at h; cases h
@@ -122,18 +123,25 @@ theorem traceCheck_ok {c : DCfg} {labels : List DLabel} {observed : List CEv}
           cases hw : firstWrongResult s.results tags c.files.length with
           | some i => rw [hw] at h; cases h
           | none =>
-            exact ⟨s, drunAt_ok labels _ _ 0 hr, Classical.not_not.mp hp, firstDiff_none _ _ 0 hd,
-              Classical.not_not.mp hn, firstWrongResult_none _ hw⟩
+            rw [hw] at h
+            simp only at h
+            by_cases he : dexitOk s = exitZero
+            · exact ⟨s, drunAt_ok labels _ _ 0 hr, Classical.not_not.mp hp, firstDiff_none _ _ 0 hd,
+                Classical.not_not.mp hn, firstWrongResult_none _ hw, he⟩
+            · rw [if_neg he] at h; cases h
 
 theorem traceCheck_complete {c : DCfg} {labels : List DLabel} {observed : List CEv}
-    {tags : List FileResult} {s : DSt} (h : TraceOk c labels observed tags s) :
-    traceCheck c labels observed tags = .ok := by
+    {tags : List FileResult} {exitZero : Bool} {s : DSt}
+    (h : TraceOk c labels observed tags exitZero s) :
+    traceCheck c labels observed tags exitZero = .ok := by
   unfold traceCheck
   rw [drunAt_of_drun labels _ _ 0 h.run]
   simp only
   rw [if_neg (by simp [h.finished]), h.log, firstDiff_self]
   simp only
   rw [if_neg (by simp [h.ntags]), firstWrongResult_of_all _ h.results]
+  simp only
+  rw [if_pos h.exit]
 
 theorem dwf_of_dwfB {c : DCfg} {mgmt : Str} (h : dwfB c mgmt = true) : DWf c mgmt := by
   unfold dwfB at h
